@@ -352,14 +352,10 @@ def _unwrap_value_from_typed(result: Value, typ: type, ctx: AttrContext) -> Valu
         try:
             descriptor = inspect.getattr_static(typ, ctx.attr)
         except AttributeError:
-            # probably a super call; assume unbound method
-            if ctx.attr != "__new__":
-                return UnboundMethodValue(
-                    ctx.attr, ctx.root_composite, typevars=typevars
-                )
-            else:
-                # __new__ is implicitly a staticmethod
-                return result
+            # probably a super call; the raw class attribute lives further along
+            # the MRO (an unbound method unless we find a staticmethod there)
+            descriptor = _get_raw_attribute_from_super(typ, ctx.attr)
+        # __new__ is implicitly a staticmethod
         if isinstance(descriptor, staticmethod) or ctx.attr == "__new__":
             return result
         else:
@@ -605,6 +601,22 @@ def _get_attribute_from_mro(
             return AnyValue(AnySource.inference), typ, True
 
     return UNINITIALIZED_VALUE, object, False
+
+
+def _get_raw_attribute_from_super(typ: object, attr: str) -> object:
+    """The class attribute (not run through the descriptor protocol) that
+    an attribute access on a super() object finds, or None."""
+    if not isinstance(typ, super):
+        return None
+    try:
+        mro = typ.__self_class__.__mro__
+        start = mro.index(typ.__thisclass__) + 1
+        for base_cls in mro[start:]:
+            if attr in base_cls.__dict__:
+                return base_cls.__dict__[attr]
+    except Exception:
+        pass
+    return None
 
 
 def _is_data_descriptor(cls: type, attr: str) -> bool:
